@@ -1,6 +1,6 @@
 //go:build verif
 
-// Contracts for the grammar analyses of package tree (property C15), read by /verif/govc (comment-only; not part of any
+// Contracts for the grammar analyses (property C15) and the tree builder (property C10, second half of the file) of package tree, read by /verif/govc (comment-only; not part of any
 // build). Syntax: see the header of govc/contract.go. Unit "tree" (govc/main.go, loadTreeUnit).
 //
 // Property C15: generation reports "used but not defined" for exactly the referenced names that have no definition,
@@ -311,3 +311,443 @@ package tree
 //@   loop 0 invariant count == idx() && (idx() == 0) == (cur() == n.front && last == nil) && idx() >= 0
 //@   loop 0 invariant cur() == nil || in(cur(), n.kids)
 //@   loop 0 invariant last == nil || (in(last, n.kids) && last.next == cur())
+
+//@ -- ==================================================================================================================
+//@ -- Property C10 (front end): the tree builder called by the actions of peg.peg is a stack machine.
+//@ -- "Every grammar written in the documented .peg syntax is accepted, and each construct denotes its documented meaning:
+//@ -- single-quoted literals are case-sensitive, double-quoted literals and [[...]] classes are case-insensitive, [^...] negates,
+//@ -- every backslash escape denotes the stated code point, # and // comments and both arrow spellings are equivalent, imports
+//@ -- keep their path and alias, nested braces in actions are balanced, and precedence is alternation < sequence < prefix <
+//@ -- suffix. Text that is not a grammar is reported as an error (never a crash, never a silently different or empty parser)."
+//@ --
+//@ -- VERIFIED (unit "tree", keys builderKeys in govc/main.go; entry point runC10 in govc/builder.go):
+//@ --   1. every builder method (New, AddRule ... AddPeg, addList, addFix, escape) against the contracts below: no PopFront on
+//@ --      an empty list (hence no panic) when at least `t.hi >= k` operands are present, the representation invariant
+//@ --      stack(t), the change of the operand depth moved(t, d, f), the SHAPE of what is pushed, and the frame;
+//@ --   2. the escape table of peg.peg (text of the rule Escape against the documented code points; govc/builder.go);
+//@ --   3. the stack discipline of peg.peg: with the needs/effects read off these contracts, every derivation of every rule
+//@ --      changes the operand depth by its declared amount and never uses an operand below its level of entry; so, starting
+//@ --      from New (depth 0), every precondition `t.hi >= k` below holds whenever an action runs; plus checks of the
+//@ --      spellings (arrows, comment markers), of the brace balance of Action/ActionBody and of the precedence levels.
+//@ -- FINDINGS repaired in this tree: F11 (AddOctalCharacter clamped \200..\377 to U+007F: ParseInt bit size 8 -> 32),
+//@ --   F10 (peg.peg accepted '' "" [] [[]] which push no operand: the first character / the ranges are now mandatory).
+//@ -- ASSUMED (not verified):
+//@ --   B-A1 library contracts (govc/main.go, loadTreeUnit): strconv.ParseInt (value of a plain digit string, clamped to the
+//@ --        bit size with a non-nil error), strings.ToLower / ToUpper (named mappings lower / upper; on one ASCII letter: the
+//@ --        letter of the other case), strconv.Quote (named quoted; at least the two quote bytes)
+//@ --   B-A2 room(t) and `length < MAXINT` of a list that receives a child: list length counters do not overflow
+//@ --   B-A3 memory model: allocated(t.node) (the embedded list header of an allocated Tree lies inside that allocation);
+//@ --        machine arithmetic is mathematical for t.RulesCount++ (AddRule) and len(c)-1 (escape)
+//@ --   B-A4 the generated parser runs the actions of a successful parse in text order and never runs the actions inside a
+//@ --        lookahead (property C04 / closure properties); the rule tree of peg.peg is obtained with the front end itself
+//@ --   B-A5 not covered: what Compile does with the finished tree (literal strings, character classes -> set package, C05)
+//@ -- The Tree's own child list holds, from the front, the OPERAND STACK (PushFront pushes, PopFront pops) and, behind it,
+//@ -- the FINISHED items (PushBack appends: package, imports, the peg declaration, finished rules).
+//@ -- Ghost: Tree.stk maps an index to the list element at that position, Tree.hi / Tree.lo delimit the list:
+//@ --   operands   stk[0] (bottom) ... stk[hi-1] (top == t.front)        operand depth = hi      (PushFront: hi+1, PopFront: hi-1)
+//@ --   finished   stk[-1] (first finished) ... stk[lo] (== t.back)       finished items = -lo    (PushBack: lo-1)
+//@ -- so index 0 separates the two parts and never moves.
+//@ ghostfield Tree.stk map
+//@ ghostfield Tree.lo int
+//@ ghostfield Tree.hi int
+//@ pred elem(t *Tree, i) = at(t.stk, i, node)
+//@ -- opnd(t, k): the k-th operand counted from the top of the stack
+//@ pred opnd(t *Tree, k) = at(t.stk, t.hi - 1 - k, node)
+//@ -- B0..B5: the representation invariant of the stack (the list is exactly stk[lo..hi), a nil-terminated chain of
+//@ -- distinct nodes, each of which is a well-formed list header itself and owns its last child)
+//@ pred B0(t *Tree) = t != nil && allocated(t.node) && rep(t) && t.lo <= 0 && 0 <= t.hi && t.length == t.hi - t.lo
+//@ pred B1(t *Tree) = forall(i, t.lo <= i && i < t.hi ==> allocated(elem(t, i)) && elem(t, i) != t.node && rep(elem(t, i)))
+//@ pred B2(t *Tree) = forall(i, t.lo < i && i < t.hi ==> elem(t, i).next == elem(t, i - 1))
+//@ pred B3(t *Tree) = t.length > 0 ==> t.front == elem(t, t.hi - 1) && t.back == elem(t, t.lo) && elem(t, t.lo).next == nil
+//@ pred B4(t *Tree) = forall(i, j, t.lo <= i && i < j && j < t.hi ==> elem(t, i) != elem(t, j))
+//@ pred B5(t *Tree) = forall(i, j, t.lo <= i && i < t.hi && t.lo <= j && j < t.hi ==> elem(t, i).back != elem(t, j))
+//@ pred stack(t *Tree) = B0(t) && B1(t) && B2(t) && B3(t) && B4(t) && B5(t)
+//@ -- room: the list length counter cannot overflow (ASSUMED at the boundary: a list of 2^63 nodes does not fit in memory)
+//@ pred room(t *Tree) = t.length < MAXINT - 2
+//@ pred room8(t *Tree) = t.length < MAXINT - 8
+//@ -- the part of the stack below the top k operands, and the finished part, are as before
+//@ pred below(t *Tree, k) = forall(i, old(t.lo) <= i && i < old(t.hi) - k ==> elem(t, i) == old(elem(t, i)))
+//@ -- leaf(n, ty, s): a node of type ty with text s and no children
+//@ pred leaf(n *node, ty, s) = n != nil && n.Type == ty && n.string == s && n.front == nil && n.back == nil && n.length == 0
+//@ -- pushed(t, d): depth changed by d, finished part unchanged
+//@ pred moved(t *Tree, d, f) = t.hi == old(t.hi) + d && t.lo == old(t.lo) - f
+
+//@ -- pair(l, ty, x, y): l is a list node of type ty with exactly the children x, y (in this order); single: exactly x
+//@ pred pair(l *node, ty, x *node, y *node) = l != nil && l.Type == ty && l.string == "" && l.length == 2 && l.front == x && x != nil && x.next == y && l.back == y && y != nil && y.next == nil
+//@ pred single(l *node, ty, x *node) = l != nil && l.Type == ty && l.string == "" && l.length == 1 && l.front == x && l.back == x && x != nil && x.next == nil
+//@ -- appended(b, a): the child list of b is the one it had at entry with a added at the end
+//@ pred appended(b *node, a *node) = b.back == a && a.next == nil && b.length == old(b.length) + 1 && ite(old(b.front) == nil, b.front == a, b.front == old(b.front) && old(b.back).next == a)
+//@ -- rangeOf(x, lo, hi): x is Range(Character lo, Character hi)
+//@ pred rangeOf(x *node, s1, s2) = fresh(x) && pair(x, TypeRange, x.front, x.back) && fresh(x.front) && leaf(x.front, TypeCharacter, s1) && fresh(x.back) && leaf(x.back, TypeCharacter, s2)
+
+//@ -- ------------------------------------------------------------------------------------------------------------------
+//@ -- Spec functions naming what the assumed library contracts compute (nothing else is assumed about them):
+//@ --   lower(s) / upper(s)   the Unicode case mappings of strings.ToLower / strings.ToUpper
+//@ --   digits(s, base)       s is a non-empty string of digits of that base (no sign, no underscore, no prefix)
+//@ --   numval(s, base)       the number such a string denotes
+//@ specfunc lower(s string) string
+//@ specfunc upper(s string) string
+//@ specfunc digits(s string, base int) bool
+//@ specfunc numval(s string, base int) int
+//@ pred intMax(b) = ite(b == 8, 127, ite(b == 16, 32767, ite(b == 32, 2147483647, MAXINT)))
+//@ pred upperLetter(s) = rlen(s) == 1 && 65 <= runeAt(s, 0) && runeAt(s, 0) <= 90
+//@ pred lowerLetter(s) = rlen(s) == 1 && 97 <= runeAt(s, 0) && runeAt(s, 0) <= 122
+//@ const MAXRUNE = 1114111
+
+//@ -- ------------------------------------------------------------------------------------------------------------------
+//@ -- leaves: one fresh childless node of the stated type and text is pushed; nothing else changes
+//@ func Tree.AddRule
+//@   requires stack(t) && room(t)
+//@   ensures stack(t) && moved(t, 1, 0) && below(t, 0)
+//@   ensures fresh(opnd(t, 0)) && leaf(opnd(t, 0), TypeRule, name)
+//@   ensures opnd(t, 0).id == old(t.RulesCount) && t.RulesCount == old(t.RulesCount) + 1
+//@   modifies node.front, node.back, node.length at r where r == t.node
+//@   modifies node.next, node.Type, node.string, node.id, node.parentDetect, node.parentMultipleKey, node.kids, node.pos, node.hits at r where false
+//@   modifies Tree.stk, Tree.hi, Tree.RulesCount at r where r == t
+//@   ghost return : t.stk = put(t.stk, t.hi, t.front)
+//@   ghost return : t.hi = t.hi + 1
+//@ func Tree.AddName
+//@   requires stack(t) && room(t)
+//@   ensures stack(t) && moved(t, 1, 0) && below(t, 0)
+//@   ensures fresh(opnd(t, 0)) && leaf(opnd(t, 0), TypeName, text)
+//@   modifies node.front, node.back, node.length at r where r == t.node
+//@   modifies node.next, node.Type, node.string, node.id, node.parentDetect, node.parentMultipleKey, node.kids, node.pos, node.hits at r where false
+//@   modifies Tree.stk, Tree.hi at r where r == t
+//@   ghost return : t.stk = put(t.stk, t.hi, t.front)
+//@   ghost return : t.hi = t.hi + 1
+//@ func Tree.AddDot
+//@   requires stack(t) && room(t)
+//@   ensures stack(t) && moved(t, 1, 0) && below(t, 0)
+//@   ensures fresh(opnd(t, 0)) && leaf(opnd(t, 0), TypeDot, ".")
+//@   modifies node.front, node.back, node.length at r where r == t.node
+//@   modifies node.next, node.Type, node.string, node.id, node.parentDetect, node.parentMultipleKey, node.kids, node.pos, node.hits at r where false
+//@   modifies Tree.stk, Tree.hi at r where r == t
+//@   ghost return : t.stk = put(t.stk, t.hi, t.front)
+//@   ghost return : t.hi = t.hi + 1
+//@ func Tree.AddCharacter
+//@   requires stack(t) && room(t)
+//@   ensures stack(t) && moved(t, 1, 0) && below(t, 0)
+//@   ensures fresh(opnd(t, 0)) && leaf(opnd(t, 0), TypeCharacter, text)
+//@   modifies node.front, node.back, node.length at r where r == t.node
+//@   modifies node.next, node.Type, node.string, node.id, node.parentDetect, node.parentMultipleKey, node.kids, node.pos, node.hits at r where false
+//@   modifies Tree.stk, Tree.hi at r where r == t
+//@   ghost return : t.stk = put(t.stk, t.hi, t.front)
+//@   ghost return : t.hi = t.hi + 1
+//@ func Tree.AddPredicate
+//@   requires stack(t) && room(t)
+//@   ensures stack(t) && moved(t, 1, 0) && below(t, 0)
+//@   ensures fresh(opnd(t, 0)) && leaf(opnd(t, 0), TypePredicate, text)
+//@   modifies node.front, node.back, node.length at r where r == t.node
+//@   modifies node.next, node.Type, node.string, node.id, node.parentDetect, node.parentMultipleKey, node.kids, node.pos, node.hits at r where false
+//@   modifies Tree.stk, Tree.hi at r where r == t
+//@   ghost return : t.stk = put(t.stk, t.hi, t.front)
+//@   ghost return : t.hi = t.hi + 1
+//@ func Tree.AddStateChange
+//@   requires stack(t) && room(t)
+//@   ensures stack(t) && moved(t, 1, 0) && below(t, 0)
+//@   ensures fresh(opnd(t, 0)) && leaf(opnd(t, 0), TypeStateChange, text)
+//@   modifies node.front, node.back, node.length at r where r == t.node
+//@   modifies node.next, node.Type, node.string, node.id, node.parentDetect, node.parentMultipleKey, node.kids, node.pos, node.hits at r where false
+//@   modifies Tree.stk, Tree.hi at r where r == t
+//@   ghost return : t.stk = put(t.stk, t.hi, t.front)
+//@   ghost return : t.hi = t.hi + 1
+//@ func Tree.AddNil
+//@   requires stack(t) && room(t)
+//@   ensures stack(t) && moved(t, 1, 0) && below(t, 0)
+//@   ensures fresh(opnd(t, 0)) && leaf(opnd(t, 0), TypeNil, "<nil>")
+//@   modifies node.front, node.back, node.length at r where r == t.node
+//@   modifies node.next, node.Type, node.string, node.id, node.parentDetect, node.parentMultipleKey, node.kids, node.pos, node.hits at r where false
+//@   modifies Tree.stk, Tree.hi at r where r == t
+//@   ghost return : t.stk = put(t.stk, t.hi, t.front)
+//@   ghost return : t.hi = t.hi + 1
+//@ func Tree.AddAction
+//@   requires stack(t) && room(t)
+//@   ensures stack(t) && moved(t, 1, 0) && below(t, 0)
+//@   ensures fresh(opnd(t, 0)) && leaf(opnd(t, 0), TypeAction, text)
+//@   modifies node.front, node.back, node.length at r where r == t.node
+//@   modifies node.next, node.Type, node.string, node.id, node.parentDetect, node.parentMultipleKey, node.kids, node.pos, node.hits at r where false
+//@   modifies Tree.stk, Tree.hi at r where r == t
+//@   ghost return : t.stk = put(t.stk, t.hi, t.front)
+//@   ghost return : t.hi = t.hi + 1
+//@ func Tree.AddPeg
+//@   requires stack(t) && room(t)
+//@   ensures stack(t) && moved(t, 1, 0) && below(t, 0)
+//@   ensures fresh(opnd(t, 0)) && leaf(opnd(t, 0), TypePeg, text)
+//@   modifies node.front, node.back, node.length at r where r == t.node
+//@   modifies node.next, node.Type, node.string, node.id, node.parentDetect, node.parentMultipleKey, node.kids, node.pos, node.hits at r where false
+//@   modifies Tree.stk, Tree.hi at r where r == t
+//@   ghost return : t.stk = put(t.stk, t.hi, t.front)
+//@   ghost return : t.hi = t.hi + 1
+//@ -- \0x<hex digits>: the character whose code point the digits denote (beyond U+10FFFF there is no such character)
+//@ func Tree.AddHexaCharacter
+//@   requires stack(t) && room(t)
+//@   ensures stack(t) && moved(t, 1, 0) && below(t, 0)
+//@   ensures fresh(opnd(t, 0)) && leaf(opnd(t, 0), TypeCharacter, opnd(t, 0).string)
+//@   ensures digits(text, 16) && numval(text, 16) <= MAXRUNE ==> opnd(t, 0).string == strOfRune(numval(text, 16))
+//@   overflow checked
+//@   modifies node.front, node.back, node.length at r where r == t.node
+//@   modifies node.next, node.Type, node.string, node.id, node.parentDetect, node.parentMultipleKey, node.kids, node.pos, node.hits at r where false
+//@   modifies Tree.stk, Tree.hi at r where r == t
+//@   ghost return : t.stk = put(t.stk, t.hi, t.front)
+//@   ghost return : t.hi = t.hi + 1
+//@ -- \ooo (documented up to \377): the character whose code point the octal digits denote
+//@ func Tree.AddOctalCharacter
+//@   requires stack(t) && room(t)
+//@   ensures stack(t) && moved(t, 1, 0) && below(t, 0)
+//@   ensures fresh(opnd(t, 0)) && leaf(opnd(t, 0), TypeCharacter, opnd(t, 0).string)
+//@   ensures digits(text, 8) && numval(text, 8) <= 255 ==> opnd(t, 0).string == strOfRune(numval(text, 8))
+//@   overflow checked
+//@   modifies node.front, node.back, node.length at r where r == t.node
+//@   modifies node.next, node.Type, node.string, node.id, node.parentDetect, node.parentMultipleKey, node.kids, node.pos, node.hits at r where false
+//@   modifies Tree.stk, Tree.hi at r where r == t
+//@   ghost return : t.stk = put(t.stk, t.hi, t.front)
+//@   ghost return : t.hi = t.hi + 1
+//@ -- ------------------------------------------------------------------------------------------------------------------
+//@ -- finished items: one fresh childless node is appended behind everything; the operand stack is untouched
+//@ func Tree.AddPackage
+//@   requires stack(t) && room(t)
+//@   ensures stack(t) && moved(t, 0, 1) && below(t, 0)
+//@   ensures fresh(elem(t, t.lo)) && leaf(elem(t, t.lo), TypePackage, text)
+//@   modifies node.front, node.back, node.length at r where r == t.node
+//@   modifies node.next at r where r == t.back
+//@   modifies node.Type, node.string, node.id, node.parentDetect, node.parentMultipleKey, node.kids, node.pos, node.hits at r where false
+//@   modifies Tree.stk, Tree.lo at r where r == t
+//@   ghost return : t.stk = put(t.stk, t.lo - 1, t.back)
+//@   ghost return : t.lo = t.lo - 1
+//@ func Tree.AddSpace
+//@   requires stack(t) && room(t)
+//@   ensures stack(t) && moved(t, 0, 1) && below(t, 0)
+//@   ensures fresh(elem(t, t.lo)) && leaf(elem(t, t.lo), TypeSpace, text)
+//@   modifies node.front, node.back, node.length at r where r == t.node
+//@   modifies node.next at r where r == t.back
+//@   modifies node.Type, node.string, node.id, node.parentDetect, node.parentMultipleKey, node.kids, node.pos, node.hits at r where false
+//@   modifies Tree.stk, Tree.lo at r where r == t
+//@   ghost return : t.stk = put(t.stk, t.lo - 1, t.back)
+//@   ghost return : t.lo = t.lo - 1
+//@ func Tree.AddComment
+//@   requires stack(t) && room(t)
+//@   ensures stack(t) && moved(t, 0, 1) && below(t, 0)
+//@   ensures fresh(elem(t, t.lo)) && leaf(elem(t, t.lo), TypeComment, text)
+//@   modifies node.front, node.back, node.length at r where r == t.node
+//@   modifies node.next at r where r == t.back
+//@   modifies node.Type, node.string, node.id, node.parentDetect, node.parentMultipleKey, node.kids, node.pos, node.hits at r where false
+//@   modifies Tree.stk, Tree.lo at r where r == t
+//@   ghost return : t.stk = put(t.stk, t.lo - 1, t.back)
+//@   ghost return : t.lo = t.lo - 1
+//@ func Tree.AddImport
+//@   requires stack(t) && room(t)
+//@   ensures stack(t) && moved(t, 0, 1) && below(t, 0)
+//@   ensures fresh(elem(t, t.lo)) && leaf(elem(t, t.lo), TypeImport, text)
+//@   modifies node.front, node.back, node.length at r where r == t.node
+//@   modifies node.next at r where r == t.back
+//@   modifies node.Type, node.string, node.id, node.parentDetect, node.parentMultipleKey, node.kids, node.pos, node.hits at r where false
+//@   modifies Tree.stk, Tree.lo at r where r == t
+//@   ghost return : t.stk = put(t.stk, t.lo - 1, t.back)
+//@   ghost return : t.lo = t.lo - 1
+//@ func Tree.AddImportAlias
+//@   requires stack(t) && room(t)
+//@   ensures stack(t) && moved(t, 0, 1) && below(t, 0)
+//@   ensures fresh(elem(t, t.lo)) && leaf(elem(t, t.lo), TypeImport, "=" + text)
+//@   modifies node.front, node.back, node.length at r where r == t.node
+//@   modifies node.next at r where r == t.back
+//@   modifies node.Type, node.string, node.id, node.parentDetect, node.parentMultipleKey, node.kids, node.pos, node.hits at r where false
+//@   modifies Tree.stk, Tree.lo at r where r == t
+//@   ghost return : t.stk = put(t.stk, t.lo - 1, t.back)
+//@   ghost return : t.lo = t.lo - 1
+//@ -- AddState: the peg declaration on top of the stack receives the state text as (last) child and becomes a finished item
+//@ func Tree.AddState
+//@   requires stack(t) && room(t) && t.hi >= 1 && opnd(t, 0).length < MAXINT
+//@   ensures stack(t) && moved(t, -1, 1) && below(t, 1)
+//@   ensures elem(t, t.lo) == old(opnd(t, 0)) && appended(old(opnd(t, 0)), old(opnd(t, 0)).back)
+//@   ensures fresh(old(opnd(t, 0)).back) && leaf(old(opnd(t, 0)).back, TypeState, text)
+//@   modifies node.front, node.back, node.length at r where r == t.node || r == opnd(t, 0)
+//@   modifies node.next at r where r == opnd(t, 0) || r == opnd(t, 0).back || r == t.back
+//@   modifies node.Type, node.string, node.id, node.parentDetect, node.parentMultipleKey, node.kids, node.pos, node.hits at r where false
+//@   modifies Tree.stk, Tree.lo, Tree.hi at r where r == t
+//@   ghost return : t.stk = put(t.stk, t.lo - 1, t.back)
+//@   ghost return : t.lo = t.lo - 1
+//@   ghost return : t.hi = t.hi - 1
+//@ -- AddExpression: the expression on top becomes the (last) child of the rule below it, and the rule a finished item
+//@ func Tree.AddExpression
+//@   requires stack(t) && room(t) && t.hi >= 2 && opnd(t, 1).length < MAXINT
+//@   ensures stack(t) && moved(t, -2, 1) && below(t, 2)
+//@   ensures elem(t, t.lo) == old(opnd(t, 1)) && appended(old(opnd(t, 1)), old(opnd(t, 0)))
+//@   modifies node.front, node.back, node.length at r where r == t.node || r == opnd(t, 1)
+//@   modifies node.next at r where r == opnd(t, 0) || r == opnd(t, 1) || r == opnd(t, 1).back || r == t.back
+//@   modifies Tree.stk, Tree.lo, Tree.hi at r where r == t
+//@   ghost return : t.stk = put(t.stk, t.lo - 1, t.back)
+//@   ghost return : t.lo = t.lo - 1
+//@   ghost return : t.hi = t.hi - 2
+//@ -- ------------------------------------------------------------------------------------------------------------------
+//@ -- addList(ty): the two topmost operands b (below) and a (top) are replaced by one list node of type ty:
+//@ --   b itself with a appended, when b already is a list of type ty (flattening: only into a node of the same type)
+//@ --   a fresh node ty(b, a) otherwise
+//@ pred addListPre(t *Tree, ty) = stack(t) && room(t) && t.hi >= 2 && imp(opnd(t, 1).Type == ty, opnd(t, 1).length < MAXINT)
+//@ pred addListPost(t *Tree, ty) = stack(t) && moved(t, -1, 0) && below(t, 2)
+//@        && imp(old(opnd(t, 1).Type) == ty, opnd(t, 0) == old(opnd(t, 1)) && appended(old(opnd(t, 1)), old(opnd(t, 0))))
+//@        && imp(old(opnd(t, 1).Type) != ty, fresh(opnd(t, 0)) && pair(opnd(t, 0), ty, old(opnd(t, 1)), old(opnd(t, 0))))
+//@ pred flat(t *Tree, ty) = opnd(t, 1).Type == ty
+//@ func Tree.addList
+//@   requires addListPre(t, listType)
+//@   ensures addListPost(t, listType)
+//@   modifies node.front, node.back, node.length at r where r == t.node || (flat(t, listType) && r == opnd(t, 1))
+//@   modifies node.next at r where r == opnd(t, 0) || r == opnd(t, 1) || (flat(t, listType) && r == opnd(t, 1).back)
+//@   modifies node.Type, node.string, node.id, node.parentDetect, node.parentMultipleKey, node.kids, node.pos, node.hits at r where false
+//@   modifies Tree.stk, Tree.hi at r where r == t
+//@   ghost return : t.stk = put(t.stk, t.hi - 2, t.front)
+//@   ghost return : t.hi = t.hi - 1
+//@ func Tree.AddAlternate
+//@   requires addListPre(t, TypeAlternate)
+//@   ensures addListPost(t, TypeAlternate)
+//@   modifies node.front, node.back, node.length at r where r == t.node || (flat(t, TypeAlternate) && r == opnd(t, 1))
+//@   modifies node.next at r where r == opnd(t, 0) || r == opnd(t, 1) || (flat(t, TypeAlternate) && r == opnd(t, 1).back)
+//@   modifies node.Type, node.string, node.id, node.parentDetect, node.parentMultipleKey, node.kids, node.pos, node.hits at r where false
+//@   modifies Tree.stk, Tree.hi at r where r == t
+//@ func Tree.AddSequence
+//@   requires addListPre(t, TypeSequence)
+//@   ensures addListPost(t, TypeSequence)
+//@   modifies node.front, node.back, node.length at r where r == t.node || (flat(t, TypeSequence) && r == opnd(t, 1))
+//@   modifies node.next at r where r == opnd(t, 0) || r == opnd(t, 1) || (flat(t, TypeSequence) && r == opnd(t, 1).back)
+//@   modifies node.Type, node.string, node.id, node.parentDetect, node.parentMultipleKey, node.kids, node.pos, node.hits at r where false
+//@   modifies Tree.stk, Tree.hi at r where r == t
+//@ func Tree.AddRange
+//@   requires addListPre(t, TypeRange)
+//@   ensures addListPost(t, TypeRange)
+//@   modifies node.front, node.back, node.length at r where r == t.node || (flat(t, TypeRange) && r == opnd(t, 1))
+//@   modifies node.next at r where r == opnd(t, 0) || r == opnd(t, 1) || (flat(t, TypeRange) && r == opnd(t, 1).back)
+//@   modifies node.Type, node.string, node.id, node.parentDetect, node.parentMultipleKey, node.kids, node.pos, node.hits at r where false
+//@   modifies Tree.stk, Tree.hi at r where r == t
+//@ -- addFix(ty): the top operand x is replaced by a fresh node ty(x)
+//@ pred addFixPre(t *Tree) = stack(t) && room(t) && t.hi >= 1
+//@ pred addFixPost(t *Tree, ty) = stack(t) && moved(t, 0, 0) && below(t, 1) && fresh(opnd(t, 0)) && single(opnd(t, 0), ty, old(opnd(t, 0)))
+//@ func Tree.addFix
+//@   requires addFixPre(t)
+//@   ensures addFixPost(t, fixType)
+//@   modifies node.front, node.back, node.length at r where r == t.node
+//@   modifies node.next at r where r == opnd(t, 0)
+//@   modifies node.Type, node.string, node.id, node.parentDetect, node.parentMultipleKey, node.kids, node.pos, node.hits at r where false
+//@   modifies Tree.stk at r where r == t
+//@   ghost return : t.stk = put(t.stk, t.hi - 1, t.front)
+//@ func Tree.AddPeekFor
+//@   requires addFixPre(t)
+//@   ensures addFixPost(t, TypePeekFor)
+//@   modifies node.front, node.back, node.length at r where r == t.node
+//@   modifies node.next at r where r == opnd(t, 0)
+//@   modifies node.Type, node.string, node.id, node.parentDetect, node.parentMultipleKey, node.kids, node.pos, node.hits at r where false
+//@   modifies Tree.stk at r where r == t
+//@ func Tree.AddPeekNot
+//@   requires addFixPre(t)
+//@   ensures addFixPost(t, TypePeekNot)
+//@   modifies node.front, node.back, node.length at r where r == t.node
+//@   modifies node.next at r where r == opnd(t, 0)
+//@   modifies node.Type, node.string, node.id, node.parentDetect, node.parentMultipleKey, node.kids, node.pos, node.hits at r where false
+//@   modifies Tree.stk at r where r == t
+//@ func Tree.AddQuery
+//@   requires addFixPre(t)
+//@   ensures addFixPost(t, TypeQuery)
+//@   modifies node.front, node.back, node.length at r where r == t.node
+//@   modifies node.next at r where r == opnd(t, 0)
+//@   modifies node.Type, node.string, node.id, node.parentDetect, node.parentMultipleKey, node.kids, node.pos, node.hits at r where false
+//@   modifies Tree.stk at r where r == t
+//@ func Tree.AddStar
+//@   requires addFixPre(t)
+//@   ensures addFixPost(t, TypeStar)
+//@   modifies node.front, node.back, node.length at r where r == t.node
+//@   modifies node.next at r where r == opnd(t, 0)
+//@   modifies node.Type, node.string, node.id, node.parentDetect, node.parentMultipleKey, node.kids, node.pos, node.hits at r where false
+//@   modifies Tree.stk at r where r == t
+//@ func Tree.AddPlus
+//@   requires addFixPre(t)
+//@   ensures addFixPost(t, TypePlus)
+//@   modifies node.front, node.back, node.length at r where r == t.node
+//@   modifies node.next at r where r == opnd(t, 0)
+//@   modifies node.Type, node.string, node.id, node.parentDetect, node.parentMultipleKey, node.kids, node.pos, node.hits at r where false
+//@   modifies Tree.stk at r where r == t
+//@ func Tree.AddPush
+//@   requires addFixPre(t)
+//@   ensures addFixPost(t, TypePush)
+//@   modifies node.front, node.back, node.length at r where r == t.node
+//@   modifies node.next at r where r == opnd(t, 0)
+//@   modifies node.Type, node.string, node.id, node.parentDetect, node.parentMultipleKey, node.kids, node.pos, node.hits at r where false
+//@   modifies Tree.stk at r where r == t
+//@ -- ------------------------------------------------------------------------------------------------------------------
+//@ -- case-insensitive forms. AddDoubleCharacter(c) pushes Alternate(Character lower(c), Character upper(c)); on a single ASCII
+//@ -- letter (all that peg.peg passes: <[a-zA-Z]>) these are the lower-case and the upper-case letter themselves.
+//@ func Tree.AddDoubleCharacter
+//@   requires stack(t) && room8(t)
+//@   ensures stack(t) && moved(t, 1, 0) && below(t, 0)
+//@   ensures fresh(opnd(t, 0)) && pair(opnd(t, 0), TypeAlternate, opnd(t, 0).front, opnd(t, 0).back)
+//@   ensures fresh(opnd(t, 0).front) && leaf(opnd(t, 0).front, TypeCharacter, lower(text))
+//@   ensures fresh(opnd(t, 0).back) && leaf(opnd(t, 0).back, TypeCharacter, upper(text))
+//@   ensures upperLetter(text) ==> opnd(t, 0).front.string == strOfRune(runeAt(text, 0) + 32) && opnd(t, 0).back.string == text
+//@   ensures lowerLetter(text) ==> opnd(t, 0).front.string == text && opnd(t, 0).back.string == strOfRune(runeAt(text, 0) - 32)
+//@   modifies node.front, node.back, node.length at r where r == t.node
+//@   modifies node.next, node.Type, node.string, node.id, node.parentDetect, node.parentMultipleKey, node.kids, node.pos, node.hits at r where false
+//@   modifies Tree.stk, Tree.hi at r where r == t
+//@   ghost after "t.PushFront(&node{Type: TypeCharacter, string: strings.ToLower(text)})" : t.stk = put(t.stk, t.hi, t.front)
+//@   ghost after "t.PushFront(&node{Type: TypeCharacter, string: strings.ToLower(text)})" : t.hi = t.hi + 1
+//@   ghost after "t.PushFront(&node{Type: TypeCharacter, string: strings.ToUpper(text)})" : t.stk = put(t.stk, t.hi, t.front)
+//@   ghost after "t.PushFront(&node{Type: TypeCharacter, string: strings.ToUpper(text)})" : t.hi = t.hi + 1
+//@ -- AddDoubleRange: with b (below, the first character in the source) and a (top, the second) it pushes
+//@ -- Alternate(Range(lower b, lower a), Range(upper b, upper a)) in place of the two
+//@ func Tree.AddDoubleRange
+//@   requires stack(t) && room8(t) && t.hi >= 2
+//@   ensures stack(t) && moved(t, -1, 0) && below(t, 2)
+//@   ensures fresh(opnd(t, 0)) && pair(opnd(t, 0), TypeAlternate, opnd(t, 0).front, opnd(t, 0).back)
+//@   ensures rangeOf(opnd(t, 0).front, lower(old(opnd(t, 1).string)), lower(old(opnd(t, 0).string)))
+//@   ensures rangeOf(opnd(t, 0).back, upper(old(opnd(t, 1).string)), upper(old(opnd(t, 0).string)))
+//@   modifies node.front, node.back, node.length at r where r == t.node
+//@   modifies node.next at r where r == opnd(t, 0) || r == opnd(t, 1)
+//@   modifies node.Type, node.string, node.id, node.parentDetect, node.parentMultipleKey, node.kids, node.pos, node.hits at r where false
+//@   modifies Tree.stk, Tree.hi at r where r == t
+//@   ghost after "a := t.PopFront()" : t.hi = t.hi - 1
+//@   ghost after "b := t.PopFront()" : t.hi = t.hi - 1
+//@ -- ------------------------------------------------------------------------------------------------------------------
+//@ -- composite actions of peg.peg (verification-only functions in lemmas_verif.go with the statement lists of the actions)
+//@ -- [^...]: with the class c on top, { AddPeekNot; AddDot; AddSequence } leaves Sequence(PeekNot(c), Dot)
+//@ func verifNegatedClass
+//@   requires stack(t) && room8(t) && t.hi >= 1
+//@   ensures stack(t) && moved(t, 0, 0) && below(t, 1)
+//@   ensures fresh(opnd(t, 0)) && pair(opnd(t, 0), TypeSequence, opnd(t, 0).front, opnd(t, 0).back)
+//@   ensures fresh(opnd(t, 0).front) && single(opnd(t, 0).front, TypePeekNot, old(opnd(t, 0)))
+//@   ensures fresh(opnd(t, 0).back) && leaf(opnd(t, 0).back, TypeDot, ".")
+//@   modifies node.front, node.back, node.length at r where r == t.node
+//@   modifies node.next at r where r == opnd(t, 0)
+//@   modifies node.Type, node.string, node.id, node.parentDetect, node.parentMultipleKey, node.kids, node.pos, node.hits at r where false
+//@   modifies Tree.stk, Tree.hi at r where r == t
+//@ -- e /: with the expression e on top, { AddNil; AddAlternate } leaves e with Nil appended when e is an alternation,
+//@ -- Alternate(e, Nil) otherwise
+//@ func verifTrailingSlash
+//@   requires stack(t) && room8(t) && t.hi >= 1 && imp(opnd(t, 0).Type == TypeAlternate, opnd(t, 0).length < MAXINT)
+//@   ensures stack(t) && moved(t, 0, 0) && below(t, 1)
+//@   ensures old(opnd(t, 0).Type) == TypeAlternate ==> opnd(t, 0) == old(opnd(t, 0)) && appended(opnd(t, 0), opnd(t, 0).back)
+//@   ensures old(opnd(t, 0).Type) != TypeAlternate ==> fresh(opnd(t, 0)) && pair(opnd(t, 0), TypeAlternate, old(opnd(t, 0)), opnd(t, 0).back)
+//@   ensures fresh(opnd(t, 0).back) && leaf(opnd(t, 0).back, TypeNil, "<nil>")
+//@   modifies node.front, node.back, node.length at r where r == t.node || (opnd(t, 0).Type == TypeAlternate && r == opnd(t, 0))
+//@   modifies node.next at r where r == opnd(t, 0) || (opnd(t, 0).Type == TypeAlternate && r == opnd(t, 0).back)
+//@   modifies node.Type, node.string, node.id, node.parentDetect, node.parentMultipleKey, node.kids, node.pos, node.hits at r where false
+//@   modifies Tree.stk, Tree.hi at r where r == t
+//@ -- ------------------------------------------------------------------------------------------------------------------
+//@ -- escape(c): the text of c inside a Go character or string literal of the generated parser: the two quote characters are
+//@ -- special-cased, everything else is strconv.Quote(c) without its quotes. No slice-bounds panic (Quote yields >= 2 bytes).
+//@ specfunc quoted(s string) string
+//@ func escape
+//@   ensures c == "'" ==> result == "\\'"
+//@   ensures c == "\"" ==> result == "\""
+//@   ensures c != "'" && c != "\"" ==> result == strSub(quoted(c), 1, len(quoted(c)) - 1)
+//@ func node.Escaped
+//@   requires n != nil
+//@   ensures n.string != "'" && n.string != "\"" ==> result == strSub(quoted(n.string), 1, len(quoted(n.string)) - 1)
+//@   ensures n.string == "'" ==> result == "\\'"
+//@ -- ------------------------------------------------------------------------------------------------------------------
+//@ -- New: the empty builder state (no operand, no finished item); the options are stored as given
+//@ func New
+//@   ensures result != nil && fresh(result) && stack(result) && result.hi == 0 && result.lo == 0 && result.length == 0
+//@   ensures result.inline == inline && result._switch == _switch && result.Ast == !noast && result.RulesCount == 0 && result.werr == nil
+//@   ensures result.Rules != nil && result.rulesCount != nil && result.Rules != result.rulesCount
+//@   modifies node.front, node.back, node.length, node.next, node.Type, node.string, node.id, node.parentDetect, node.parentMultipleKey, node.kids, node.pos, node.hits at r where false
+//@   modifies Tree.stk, Tree.lo, Tree.hi, Tree.nodes, Tree.nwarn, Tree.visited, Tree.cons, Tree.nulls, Tree.diag, Tree.reent, Tree.cvis, Tree.open, Tree.reach at r where false
+//@   modifies Tree.Rules, Tree.rulesCount, Tree.inline, Tree._switch, Tree.Ast, Tree.Strict, Tree.werr, Tree.Generator, Tree.RuleNames, Tree.Comments, Tree.PackageName,
+//@        Tree.Imports, Tree.EndSymbol, Tree.PegRuleType, Tree.StructName, Tree.StructVariables, Tree.RulesCount, Tree.HasActions, Tree.Actions, Tree.HasPush,
+//@        Tree.HasCommit, Tree.HasDot, Tree.HasCharacter, Tree.HasString, Tree.HasRange at r where false
+//@   modifies MapDom.Str!Int, MapVal.Str!Int at r where false
